@@ -7,7 +7,7 @@ import SelfiesVerif.Proofs.GraphSum
 
 namespace SV
 
-theorem bind_ok {α β} {x : Py α} {f : α → Py β} {r : β} :
+theorem bind_okD {α β} {x : Py α} {f : α → Py β} {r : β} :
     (x >>= f) = .ok r → ∃ a, x = .ok a ∧ f a = .ok r := by
   cases x with
   | error e => intro h; cases h
